@@ -166,7 +166,7 @@ TEMPO_SETS = {
     "lower-case-id": [(1, "08", 2, {1: "a1"}), (2, "08", 4, {1: "A1"})],
     "later-listed-before-at-zero": [(2, "08", 3, {1: "02"}), (0, "08", 1, {0: "01"})],
     "96th-beat": [(0, "08", 384, {5: "01"}), (1, "03", 32, {27: "5A"})],
-    # the two sets below are in the property's domain ("anywhere in a measure") and fail: known finding C04-tempo-change-off-the-snap-grid
+    # tempo changes off the snapper's grid (fractions of a beat with denominator <= 96): repaired defect 8457d97
     "incommensurate-changes": [(0, "08", 384, {5: "01"}), (1, "03", 28, {27: "5A"})],
     "off-farey96-grid": [(0, "08", 512, {3: "01"}), (1, "03", 101, {100: "5A"})],
 }
@@ -174,7 +174,7 @@ TEMPO_SETS = {
 
 def random_file(rng):
     """a generated BMS body: objects on distinct positions per lane, LNOBJ ends after an object of the lane, 0-3 tempo events on
-    the quarter-beat grid (so that the known finding about the snap grid is not touched), data lines in random file order"""
+    any subdivision, data lines in random file order"""
     lay = rng.choice(LAYOUTS)
     nl = len(lane_channels(lay))
     divs = (1, 2, 3, 4, 6, 8, 12, 16, 24, 32, 48, 64, 96, 192)
@@ -205,7 +205,7 @@ def random_file(rng):
     used = set()
     ex = iter(("01", "02", "0A"))
     for _ in range(rng.randint(0, 3)):
-        d = rng.choice((1, 2, 4, 8, 16))
+        d = rng.choice((1, 2, 4, 8, 16) + divs)
         m, slot = rng.randint(0, 4), rng.randrange(d)
         if (m, F(slot, d)) in used:
             continue
@@ -220,9 +220,6 @@ def random_file(rng):
     return lay, note_lines, tempo_lines, tuple(order)
 
 
-KNOWN_FAILING = ("incommensurate-changes", "off-farey96-grid")
-
-
 def obligations(tier, seed):
     quick = tier == "quick"
     obs = []
@@ -231,12 +228,7 @@ def obligations(tier, seed):
         S = note_sets(nl)
         for ni, (nname, nlines) in enumerate(S.items()):
             for ti, (tname, tlines) in enumerate(TEMPO_SETS.items()):
-                if tname in KNOWN_FAILING:
-                    if lay == "BME" and (nname in ("hits", "ln-across-measures") or not quick):
-                        obs.append(Obligation("C04/read/%s/%s/tempo=%s/order0" % (lay, nname, tname), partial(ob_read, lay, nlines, tlines, None),
-                                              bound="layout %s; note lines %s; tempo lines %s" % (lay, nlines, tlines)))
-                    continue
-                special_t = ("lower-case-id", "later-listed-before-at-zero", "96th-beat")
+                special_t = ("lower-case-id", "later-listed-before-at-zero", "96th-beat", "incommensurate-changes", "off-farey96-grid")
                 if quick and not ((ni + ti + len(lay)) % 5 == 0
                                   or (lay in ("BME", "PMS") and ((nname in ("fine-grid", "lower-case-ids") and tname in ("none", "ext-mid") + special_t)
                                                                  or (tname in special_t and nname in ("hits", "ln-across-measures", "every-lane"))))
